@@ -182,7 +182,9 @@ class _TableFormSection(object):
   `table_forms` property."""
 
   _section_name_prefix = "Table-Form"
-  _section_name_regex = re.compile("^{}:(.*)$".format(_section_name_prefix))
+  # blanks around the prefix and before the colon are tolerated, so that '[Table-Form :NAME]' is the table form NAME (and a duplicate of
+  # '[Table-Form:NAME]') rather than a section that is silently ignored
+  _section_name_regex = re.compile(r"^\s*{}\s*:(.*)$".format(_section_name_prefix))
 
   def __init__(self, cfg_parser):
     self._cfg_parser = cfg_parser
@@ -335,7 +337,11 @@ class _RawConfigParser(configparser.RawConfigParser):
 
   def __init__(self):
     super(_RawConfigParser, self).__init__(dict_type = _ConfigParserDict, default_section = "Variables", interpolation = configparser.ExtendedInterpolation())
+    # Section names are not normalised (only option keys are): sections and their proxies are held in plain dictionaries,
+    # otherwise a section such as [Pa ir] would be handed out when [Pair] is asked for.
     self._sections = collections.OrderedDict()
+    self._proxies = collections.OrderedDict()
+    self._proxies[self.default_section] = configparser.SectionProxy(self, self.default_section)
 
   def options(self, section):
     """Options of `section` itself. [Variables] is the default section: it supplies values for interpolation
@@ -461,14 +467,15 @@ class ConfigParser(object):
   def _check_for_duplicate_pairs(self):
     """Check the config parser for duplicate pair entries"""
 
-    if self._config_parser.has_section("Pair"):
-      seen = set()
-      for k in self._config_parser["Pair"]:
-        p = self._pair_species_func(k)
-        rev_p = tuple(reversed(list(p)))
-        if (p in seen) or (rev_p in seen):
-          raise ConfigParserDuplicateEntryException("Multiple entries for the pair {A}-{B} found in [Pair] section.".format(A= p[0], B=p[1]))
-        seen.add(p)
+    for section_name in ["Pair", "EAM-ADP-Dipole", "EAM-ADP-Quadrupole"]:
+      if self._config_parser.has_section(section_name):
+        seen = set()
+        for k in self._config_parser[section_name]:
+          p = self._pair_species_func(k)
+          rev_p = tuple(reversed(list(p)))
+          if (p in seen) or (rev_p in seen):
+            raise ConfigParserDuplicateEntryException("Multiple entries for the pair {A}-{B} found in [{section}] section.".format(A= p[0], B=p[1], section = section_name))
+          seen.add(p)
 
   def _check_for_duplicate_table_forms(self):
     _TableFormSection.check_for_duplicate_table_forms(self._config_parser)
